@@ -408,6 +408,13 @@ def run_job(job):
             env = {"HOME": home, "PATH": "/usr/bin:/bin", "GIT_CONFIG_NOSYSTEM": "1"}
             subprocess.run(["git", "init", "-q", repo], env=env, check=True, stdout=subprocess.DEVNULL, stderr=subprocess.DEVNULL)
             lines = gen_patterns(rng, dirs, "git")
+            if rng.random() < 0.25:
+                # a negation that would re-include a file whose directory is excluded: it cannot (the search may start inside)
+                cands = [(d, f) for d in dirs if d and "/" not in d for f in sorted(os.listdir(os.path.join(repo, d)))
+                         if os.path.isfile(os.path.join(repo, d, f)) and "." in f.strip(".")]
+                if cands:
+                    d, f = rng.choice(cands)
+                    lines += ["*." + f.rsplit(".", 1)[1], "!" + f, rng.choice(["/" + d, d + "/", d])]
             with open(os.path.join(repo, ".gitignore"), "w") as f:
                 f.write("\n".join(lines) + "\n")
             sub = [d for d in dirs if d]
